@@ -258,7 +258,7 @@ def main():
         if specfails.pop(cid, None) != want:
             raise vlib.InfraError("binding self-test failed: corrupted trace record %d was not rejected as %s" % (cid, want))
     validated -= len(CAN) + len(compiled) + 1
-    seen = set()
+    seen, typed_unsanitised = set(), []
     for k, (form, name, sink, tmpl, i, o) in enumerate(compiled):
         why = specfails.pop(TC0 + k, None)
         cause = PLACEMENTS[name][2]
@@ -272,9 +272,7 @@ def main():
                          {"template": tmpl, "input": i, "output": o, "reproduce": "templ generate the template, go build, render T(%r, true)" % i})
         elif why is not None and (name, why) not in seen:
             seen.add((name, why))
-            ck.violation("UrlTyping.SafeFormNotSanitised." + name,
-                         "placement %s with templ.URL(s) renders %s for s = %r: %s" % (name, o.strip(), i, why),
-                         {"template": tmpl, "input": i, "output": o})
+            typed_unsanitised.append((name, why, tmpl, i, o))
     # a spread map on <a> whose "href" is a plain string
     if specfails.pop(SP, None) == "unsafe-pass":
         ck.violation("UrlTyping.SpreadAttributeHref",
@@ -320,6 +318,13 @@ def main():
     if s["candidates_direct"] and not confirmed:
         raise vlib.InfraError("the direct runs flagged %d strings but none of them was rendered and confirmed" % s["candidates_direct"])
     ck.set("candidates_confirmed", len(confirmed))
+    # a typed placement whose rendering is not sanitised: the generator's fault only if templ.URL itself behaved
+    # (otherwise it is a consequence of the sanitiser violations reported above)
+    if not confirmed:
+        for name, why, tmpl, i, o in typed_unsanitised:
+            ck.violation("UrlTyping.SafeFormNotSanitised." + name,
+                         "placement %s with templ.URL(s) renders %s for s = %r: %s" % (name, o.strip(), i, why),
+                         {"template": tmpl, "input": i, "output": o})
     only_go = [f for i, f in gofails.items() if i not in specfails]
     if only_go:
         disagree.append("x/net/html rejects %d rendered outputs the spec tokenizer accepts: %s" % (len(only_go), only_go[:2]))
